@@ -1056,6 +1056,10 @@ package proxy
 // ---------------------------------------------------------------------------------------------
 //@ guards intraProxyManager.streamsMu: *peers
 //@   lockinv forall p string :: { p in self.peers } p in self.peers ==> self.peers[p] != nil
+// a peer's three tables are three objects (they have three Go types; the untyped heap model has to be told) and the
+// receiver table holds no nil entry (the only store, in ensureStream, stores a freshly built receiver)
+//@ pred wfPeer(q *peerState) = q.senders != q.receivers && q.senders != q.recvShutdown && q.receivers != q.recvShutdown &&
+//@        (forall k peerStreamKey :: { k in q.receivers } k in q.receivers ==> q.receivers[k] != nil)
 //@ contract (*intraProxyManager).UnregisterSender
 //@   shape sig=(m *intraProxyManager)(peerNodeName string,targetShard history.ClusterShardID,sourceShard history.ClusterShardID,sender *intraProxyStreamSender)();loops=;lits=0;fv=
 //@   props C08 C20:lock+guard
@@ -1119,10 +1123,34 @@ package proxy
 //@ extern (*intraProxyManager).EnsureReceiverForPeerShard@(*intraProxyManager).ReconcilePeerStreams(m2, peer, target, source)
 //@   trusted frame: touches only the manager's peer table (and the network)
 //@   assigns contents(m2.peers)
+// At the reconcile call site the callee's effect is still taken from this call-site clause: its precondition wfPeer
+// (three distinct table objects, no nil receiver entry) is a table invariant that the untyped heap model cannot carry
+// across the peers loop (tables of different Go types of DIFFERENT peers may alias in the model). The clause itself is
+// no longer merely trusted: it is a consequence of the contract below, which is proved on the body under wfPeer.
 //@ extern (*intraProxyManager).closePeerShardLocked@(*intraProxyManager).ReconcilePeerStreams(m2, peer, ps, key)
-//@   trusted frame and effect: only removes entries from the given peer's three tables (and cancels / closes the removed stream)
+//@   trusted consequence of the verified contract of closePeerShardLocked, assuming the table invariant wfPeer(ps)
 //@   ensures forall k peerStreamKey :: { k in ps.senders } ps.senders != nil && k in ps.senders ==> old(k in ps.senders) && ps.senders[k] == old(ps.senders[k])
 //@   assigns all(peerState.senders), all(peerState.receivers), all(peerState.recvShutdown), contents(ps.senders), contents(ps.receivers), contents(ps.recvShutdown)
+// closePeerShardLocked (its body was assumed, not verified, until now): removes exactly the given pair from the
+// given peer's three tables - every other pair keeps its presence and its value - and trips the pair's receiver latch
+// before forgetting it.
+//@ extern $r.cancel
+//@   trusted context.CancelFunc of the receiver's stream context
+//@   assigns nothing
+//@ contract (*intraProxyManager).closePeerShardLocked
+//@   shape sig=(m *intraProxyManager)(peer string,ps *peerState,key peerStreamKey)();loops=;lits=0;fv=r.cancel
+//@   props C09 C08
+//@   requires ps != nil && wfPeer(ps)
+//@   ensures @tables_stay_well_formed: wfPeer(ps)
+//@   ensures @only_the_pair_removed: forall k peerStreamKey :: { k in ps.senders } k != key ==> ((k in ps.senders) == old(k in ps.senders)) && ps.senders[k] == old(ps.senders[k])
+//@   ensures @only_the_pair_removed_r: forall k peerStreamKey :: { k in ps.receivers } k != key ==> ((k in ps.receivers) == old(k in ps.receivers)) && ps.receivers[k] == old(ps.receivers[k])
+//@   ensures @only_the_pair_removed_s: forall k peerStreamKey :: { k in ps.recvShutdown } k != key ==> ((k in ps.recvShutdown) == old(k in ps.recvShutdown)) && ps.recvShutdown[k] == old(ps.recvShutdown[k])
+//@   ensures @pair_gone: !(key in ps.senders) && !(key in ps.receivers) && ((key in ps.recvShutdown) ==> ps.recvShutdown[key] == nil)
+//@   deletepre senders: @only_the_pair: $key == key
+//@   deletepre receivers: @only_the_pair: $key == key
+//@   deletepre recvShutdown: @only_the_pair: $key == key
+//@   ensures @latch_tripped_before_forgotten: old((key in ps.recvShutdown) && ps.recvShutdown[key] != nil) ==> old(ps.recvShutdown[key]).tripped
+//@   assigns contents(ps.senders), contents(ps.receivers), contents(ps.recvShutdown), all(channel.ShutdownOnce.tripped)
 //@ contract (*intraProxyManager).ReconcilePeerStreams
 //@   shape sig=(m *intraProxyManager)(peerNodeName string)();loops=range,range,range,range,range,range,range,range,range,range,range,range;lits=1;fv=check
 //@   props C09
